@@ -1,6 +1,6 @@
 (* C04 - each computation runs at most once, and only on demand.  Statements only. *)
 From Coq Require Import String Ascii List Bool Arith ZArith.
-From TC Require Import OnceProofs PyStr Value Dict Repr Param Config Key Chain World Eval History EvalProofs HistoryProofs.
+From TC Require Import OnceProofs ApartProofs Sha256 PyStr Value Dict Repr Param Config Key Chain World Eval History EvalProofs HistoryProofs.
 Import ListNotations.
 
 (* a result held by the task object is served: nothing runs, nothing changes *)
@@ -98,3 +98,16 @@ Example C04_history_nonvacuous :
                       [HReq 1; HForget; HReq 1; HReq 0; HForget; HReq 0] = Some w' /\
              w_runlog w' = [(lit "a", lit "k0"); (lit "b", lit "k1")].
 Proof. exact OnceExample.history_runs_each_location_once. Qed.
+
+(* the last premise of the history theorem holds for parameter-mode chains: their keys are 32 hex digits of a
+   SHA-256 digest, and a result file named by such a key is no task's log or record file *)
+Theorem C04_side_files_apart_for_hex_keys : forall classes objs,
+  (forall id o, nth_error objs id = Some o -> hexkey (o_key o)) ->
+  forall i oi ti j oj tj, IsObj classes objs i oi ti -> IsObj classes objs j oj tj ->
+  log_path ti oi <> result_path tj oj /\ info_path ti oi <> result_path tj oj.
+Proof. exact apart_for_hex_keys. Qed.
+Print Assumptions C04_side_files_apart_for_hex_keys.
+
+Theorem C04_sha256_key_is_hex : forall t, hexkey (key_of_text sha256_hex t).
+Proof. exact sha256_key_hex. Qed.
+Print Assumptions C04_sha256_key_is_hex.
